@@ -27,6 +27,7 @@ Fixpoint c01_mon (acked : bool) (tr : trace) : bool :=
       match t, l with
       | TCtl, LClockPause => negb acked && c01_mon true r
       | TCtl, LClockResume => c01_mon false r
+      | TCtl, LSet ERes => c01_mon false r        (* a resume / shutdown has been issued at the latest here *)
       | TBg _, _ => (if acked then quiescent_label l else true) && c01_mon acked r
       | _, LClockPause | _, LClockResume => false
       | _, _ => c01_mon acked r
